@@ -1,7 +1,9 @@
 (* C15 — bad attribute values are refused, never silently mis-encoded. *)
 From PyUbx Require Import Base Bytes PyFloat Types Strs Walk Consts Tables Msg.
 From PyUbx Require Import Codec_lemmas Bits_lemmas Field_lemmas Exn_lemmas C08_lemmas.
-From PyUbx Require Import Trace_lemmas Shape_lemmas Build_lemmas Len_lemmas Msg_rt WfDef.
+From PyUbx Require Import Trace_lemmas Shape_lemmas Build_lemmas Len_lemmas Msg_rt WfDef Scaled_bound.
+From Coq Require Import Reals.
+From Flocq Require Import Core.Core IEEE754.BinarySingleNaN.
 Open Scope Z_scope.
 
 (* construction from ANY keyword values (every pyval: ints of any size, floats incl. nan/inf, bytes/str of any
@@ -75,3 +77,22 @@ Print Assumptions C15_flag_isolation.
 Theorem C15_clen_refuted : val2bytes atttype (PStr [97; 98; 99]%N) (T lC (Some 6%nat)) = Ok [97; 98; 99]%N.
 Proof. exact clen_refuted. Qed.
 Print Assumptions C15_clen_refuted.
+
+(* SCALED FIELDS: "every field decodes to the value supplied (to within one unit of resolution)".  A finite float v
+   supplied for a field with float scale s is encoded as z = int(v / s); when z fits 32 bits (every U1..U4 / I1..I4
+   field) the value the parse side reports, round(z * s, 12), differs from v by at most one unit s (plus one
+   thousandth of that unit and the 12-decimal rounding grain) - for EVERY finite v and EVERY positive finite s.
+   Real-number error analysis over Flocq; axioms: the four of the standard library's reals (Print Assumptions). *)
+Theorem C15_scaled_within_unit : forall vf b q z v',
+  fin vf -> fin (b64_of_bits b) -> (0 < R_of (b64_of_bits b))%R ->
+  py_div_scale (PFloat vf) (SFloat b) = Ok q -> py_int_of_float q = Ok z -> (Z.abs z <= 2 ^ 32)%Z ->
+  (do m <- py_mul_scale (PInt z) (SFloat b); py_round12 12 m) = Ok (PFloat v') -> is_finite_SF v' = true ->
+  (Rabs (R_of v' - R_of vf) <= R_of (b64_of_bits b) * (1 + / 1000) + / ten12)%R.
+Proof. exact scaled_build_parse_within_unit. Qed.
+Print Assumptions C15_scaled_within_unit.
+
+(* non-vacuity: 3653.90516 supplied for a 1e-5-scaled field: premises hold, z = 365390515 *)
+Example C15_scaled_example :
+  let vf := b64_of_bits 4660253437494143819 in let b := 4532020583610935537 in
+  exists q z, py_div_scale (PFloat vf) (SFloat b) = Ok q /\ py_int_of_float q = Ok z /\ (Z.abs z <= 2 ^ 32)%Z.
+Proof. cbv zeta. eexists. eexists. split; [vm_compute; reflexivity|]. split; [vm_compute; reflexivity|]. vm_compute. discriminate. Qed.
